@@ -68,6 +68,7 @@ def check(chk: Check) -> None:
     chk.trusted += ["rdflib Graph.namespaces()/bind model: binding order is preserved", "protobuf carries the abstract messages faithfully"]
     chk.undecided += ["interaction with evictions on concrete data (C05)", "rdflib's own default bindings (a fresh rdflib Graph pre-binds ~25 prefixes; the model starts empty)"]
     chk.part("prebound-target", lambda: _prebound(chk))
+    chk.part("reused-sink", lambda: _reused_sink(chk))
     for integ in ("generic", "rdflib"):
         for physical in (1, 2, 3):
             arity = 3 if physical == 1 else 4
@@ -211,3 +212,35 @@ def _prebound(chk: Check) -> None:
                 chk.ok(rule, inst, {"bound": [p_ for p_, _n in bound]})
             else:
                 chk.fail(rule, inst, "pyjelly.integrations.rdflib.parse.parse_jelly_to_graph:bind", f"the declared prefix 'mine' is not what the target ends up with for that namespace (bindings: {[p_ for p_, _n in bound]}): re-serialising writes a different declaration")
+
+
+def _reused_sink(chk: Check) -> None:
+    """generic reader: a sink that already had bindings (and had them listed) is reused with sink.parse()."""
+    rule = "C14.PIPE.identity"
+    prog = chk.program
+
+    def scenario(it: Interp) -> Any:
+        k = K.Kit(it)
+        stmts = [tuple(C.base("a", 3))]
+        ns_new = sstr(Atom("new.scheme", nosep=True), "/", Atom("new.path", nosep=True), "#")
+        ns_old = sstr(Atom("old.scheme", nosep=True), "/", Atom("old.path", nosep=True), "/")
+        frames = _write(k, "generic", 1, stmts, True, [("mine", ns_new)], "sink")
+        sink = k.g_sink([], [("theirs", k.new(K.GK, "IRI", ns_old))])
+        before = [(p_, P.neutral_of_generic(it, n_)) for p_, n_ in it.drain(k.attr(sink, "namespaces"))]
+        k.method(sink, "parse", k.input_stream(list(frames)))
+        after = [(p_, P.neutral_of_generic(it, n_)) for p_, n_ in it.drain(k.attr(sink, "namespaces"))]
+        again = [(p_, P.neutral_of_generic(it, n_)) for p_, n_ in it.drain(k.attr(sink, "namespaces"))]
+        return before, after, again, ns_new
+
+    inst = "generic sink.parse() on a sink whose earlier bindings were listed before"
+    for it, out in explore(prog, scenario, max_paths=8, generic_strings=True):
+        chk.paths += 1
+        if out[0] != "ok":
+            chk.fail(rule, inst, "pyjelly.integrations.generic.generic_sink.GenericStatementSink.parse", f"raises {it.exc_class_name(out[1].exc)} at {out[1].site}")
+            continue
+        before, after, again, ns_new = out[1]
+        want = [("mine", ("iri", ns_new))]
+        if freeze(after) == freeze(want) and freeze(again) == freeze(want):
+            chk.ok(rule, inst, {"bindings_after_parse": [p_ for p_, _ in after]})
+        else:
+            chk.fail(rule, inst, "pyjelly.integrations.generic.generic_sink.GenericStatementSink.namespaces:stale-after-parse", f"after sink.parse() the sink lists {[p_ for p_, _ in after]} (then {[p_ for p_, _ in again]}); the file declares ['mine']: bindings read from the file are not what the sink reports (and would re-serialise)")
